@@ -141,6 +141,12 @@ func runC15(t *testing.T, c simrt.Chooser, o Opts) *Out {
 		sc.Stalls = true
 		w2.NicStallEvery = 1 + p.n("stallevery", 9)
 		w2.NicStallFor = p.dur("stallfor", time.Microsecond, 4*w/time.Duration(n)+time.Millisecond).String()
+		if p.pct("longstall", 40) {
+			// the sender sits idle for many limiter intervals: what may leave back to back afterwards
+			// is the limiter's fixed slack, not one probe per interval missed
+			w2.NicStallEvery = 4 + p.n("lstallevery", 12)
+			w2.NicStallFor = (time.Duration(15+p.n("lstallx", 40)) * w / time.Duration(n)).String()
+		}
 	}
 	if p.pct("nicerr", 20) {
 		// a write that fails is still a probe that was charged to the limiter; the pace of the others
